@@ -22,6 +22,10 @@ package cache
 //@   safety off
 //@   requires r.used <= r.capacity
 //@   ensures [C17:within-capacity] r.used <= r.capacity && r.capacity == old(r.capacity)
+// (the policy's own handle on an entry is what keeps a resident value alive; it takes one exactly when it admits the
+// entry - an entry that is too large, or already known, gets none: a handle taken and not kept is never released and
+// the value is never finalised)
+//@   ensures [C17:the-policy-takes-a-handle-exactly-for-an-entry-it-admits] calls("(*Node).GetHandle") == old(calls("(*Node).GetHandle")) + ((old(n.CacheData) == nil && n.size <= old(r.capacity)) ? 1 : 0)
 // (an entry that is un-charged has left the recency list: left on the list it would be un-charged a second time when
 // the policy reaches it, and the policy would then retain more than its capacity)
 //@ func (*lruNode).remove
@@ -79,6 +83,7 @@ package cache
 // given one by setFunc); a node found or made without a value gives the reference taken for it back and nil is
 // answered; a handed-out node is promoted in the replacement policy; a closed cache answers nil.
 //@ count (*Node).unRefInternal
+//@ count (*Node).GetHandle
 //@ count cache.Cacher.Promote
 //@ func (*Cache).Get
 //@   props C17
